@@ -133,7 +133,25 @@ pub fn search_pair_with_history(sess: &mut dyn Driver, start: &Pos, moves: &[Mv]
     let twice_in_reach = cur.legal_moves().iter().any(|m| { let n = cur.make(*m); seen.iter().filter(|k| **k == n.key()).count() >= 2 });
     if twice_in_reach { rep.count("search_pairs_with_history_third_occurrence_one_ply_away"); rep.distinct_hash(monlib::mix(cur.key().h64(), 7100 + d as u64)); }
     if scores[0].is_none() || scores[0] != scores[1] {
-        rep.violation(&format!("search-asymmetric-with-history:depth-{}:{}", d, if twice_in_reach { "repetition-in-reach" } else { "other" }), format!("go depth {} after {} moves from {}: {:?}, colour-flipped twin {:?}", d, moves.len(), start.to_fen(), scores[0], scores[1]), replay);
+        rep.violation(&format!("search-asymmetric-with-history:depth-{}:{}", d, if twice_in_reach { "repetition-in-reach" } else { "other" }), format!("go depth {} after {} moves from {}: {:?}, colour-flipped twin {:?}", d, moves.len(), start.to_fen(), scores[0], scores[1]), replay.clone());
+    }
+    // The same two roots asked again on this engine as bare FENs (no history): whatever the previous
+    // commands left in the engine (repetition history, tables) must not take part — the twins still
+    // agree. (The second twin finds the first twin's game in the engine's past, the first one does not.)
+    let bare = [cur.clone(), cur.flip()];
+    if cur.legal_moves().is_empty() { return; }
+    let mut s2 = Vec::new();
+    for q in &bare {
+        match search(sess, Some((&Some(q.to_fen()), &[])), &GoSpec::depth(d as u64)) {
+            Ok(o) => s2.push(o.score_at_depth(d).and_then(reported)),
+            Err(e) if e.starts_with("watchdog") => { rep.inconclusive("watchdog fired"); return; }
+            Err(e) => { rep.violation("search-failed", format!("go depth {} on {}: {}", d, q.to_fen(), e), replay); return; }
+        }
+    }
+    rep.eval();
+    rep.count("search_pairs_bare_fen_after_a_game_on_the_same_engine");
+    if s2[0].is_none() || s2[0] != s2[1] {
+        rep.violation(&format!("search-asymmetric-bare-fen-after-game:depth-{}", d), format!("go depth {} on the bare FEN {} after the game had been searched on this engine: {:?}, colour-flipped twin {:?}", d, cur.to_fen(), s2[0], s2[1]), replay);
     }
 }
 
